@@ -51,11 +51,27 @@ fn fresh_pair_counts_one_handle_per_side() {
 """
 def fresh(ctor, fields):
     return FRESH % dict(ctor=ctor, asserts="\n".join('    assert!(s.inner.%s.load(Ordering::Relaxed) == 1, "[C11] a new shared channel counts exactly one %s handle");' % (f, f[:-1]) for f in fields))
+TRY_RECV = """
+/// try_receive through the shared receiver is the channel's try_receive: after the implicit close (last sender dropped) a
+/// receiver that has not yet seen the latest state still gets it
+#[kani::proof]
+fn shared_try_receive_after_the_last_sender_is_dropped() {
+    let (s, r) = generic_state_broadcast_channel::<NoopLock, u8>();
+    let v: u8 = kani::any();
+    let _ = s.send(v);
+    drop(s);
+    let got = r.try_receive(StateId::new());
+    assert!(matches!(got, Some((_, x)) if x == v), "[C13] [C11] after close a receiver that has not yet seen the latest state still gets it, also through the shared try_receive");
+    let again = r.try_receive(got.unwrap().0);
+    assert!(again.is_none(), "[C13] a receiver that has seen the latest state gets nothing newer");
+    core::mem::forget(r);
+}
+"""
 cfg = {
- "oneshot": dict(RECEIVE="receive()", CHAN="GenericOneshotChannel", CLOSED="is_fulfilled", CTOR="generic_oneshot_channel", USE="", SENDER_COUNT="", SENDER_LAST="true", RECEIVER_COUNT="", RECEIVER_LAST="true", CLONE_TESTS=FRESH % dict(ctor="generic_oneshot_channel", asserts="")),
- "oneshot_broadcast": dict(RECEIVE="receive()", CHAN="GenericOneshotBroadcastChannel", CLOSED="is_fulfilled", CTOR="generic_oneshot_broadcast_channel", USE="use core::sync::atomic::Ordering;", SENDER_COUNT="", SENDER_LAST="true",
+ "oneshot": dict(PROP="C12", EXTRA="", RECEIVE="receive()", CHAN="GenericOneshotChannel", CLOSED="is_fulfilled", CTOR="generic_oneshot_channel", USE="", SENDER_COUNT="", SENDER_LAST="true", RECEIVER_COUNT="", RECEIVER_LAST="true", CLONE_TESTS=FRESH % dict(ctor="generic_oneshot_channel", asserts="")),
+ "oneshot_broadcast": dict(PROP="C12", EXTRA="", RECEIVE="receive()", CHAN="GenericOneshotBroadcastChannel", CLOSED="is_fulfilled", CTOR="generic_oneshot_broadcast_channel", USE="use core::sync::atomic::Ordering;", SENDER_COUNT="", SENDER_LAST="true",
       RECEIVER_COUNT=COUNT % ("r", "receivers"), RECEIVER_LAST="(n == 1)", CLONE_TESTS=CLONE % dict(who="receiver", ctor="generic_oneshot_broadcast_channel", var="r", field="receivers") + fresh("generic_oneshot_broadcast_channel", ["receivers"])),
- "state_broadcast": dict(RECEIVE="receive(StateId::new())", CHAN="GenericStateBroadcastChannel", CLOSED="is_closed", CTOR="generic_state_broadcast_channel", USE="use core::sync::atomic::Ordering;", SENDER_COUNT=COUNT % ("s", "senders"), SENDER_LAST="(n == 1)",
+ "state_broadcast": dict(PROP="C13", EXTRA=TRY_RECV, RECEIVE="receive(StateId::new())", CHAN="GenericStateBroadcastChannel", CLOSED="is_closed", CTOR="generic_state_broadcast_channel", USE="use core::sync::atomic::Ordering;", SENDER_COUNT=COUNT % ("s", "senders"), SENDER_LAST="(n == 1)",
       RECEIVER_COUNT=COUNT % ("r", "receivers"), RECEIVER_LAST="(n == 1)", CLONE_TESTS=CLONE % dict(who="receiver", ctor="generic_state_broadcast_channel", var="r", field="receivers") + CLONE % dict(who="sender", ctor="generic_state_broadcast_channel", var="s", field="senders") + fresh("generic_state_broadcast_channel", ["senders", "receivers"])),
 }
 for f, c in cfg.items():
